@@ -13,7 +13,8 @@ pub fn run(o: &Opts) {
         if sink.wants(idx) {
             let mut r = Rng::for_case(o.seed, "C02", idx);
             let nonce = format!("c02_{}_{idx}", o.seed);
-            let cfg = wf_cfg(&mut r, 8);
+            // one case in eight has call sites with up to 40 fields: values accumulate beyond 32 per span
+            let cfg = wf_cfg(&mut r, if idx % 8 == 5 { 40 } else { 8 });
             let evs = gen_stream(&mut r, &cfg, &nonce);
             if idx % 3 != 2 {
                 // quiescent cuts, local map kept: compare with the uncut run
@@ -37,6 +38,19 @@ pub fn run(o: &Opts) {
             }
         }
         idx += 1;
+    }
+    // the hand-written histories of the receiver checks (wide call sites, values accumulated over several
+    // records and across restarts, re-announcements ..): persisted state and acceptance
+    {
+        let n_corpus = corpus("c02c_probe").len();
+        for k in 0..n_corpus {
+            if sink.wants(idx) {
+                let nonce = format!("c02c_{}_{k}", o.seed);
+                let steps = corpus(&nonce).swap_remove(k);
+                hist_case(&mut sink, "judge_c02_state", idx, "corpus-state", &steps, &nonce);
+            }
+            idx += 1;
+        }
     }
     // all cut sets of short streams (exhaustive over the quiescent positions)
     let n_short = if o.thorough { 400 } else { 25 };
